@@ -224,7 +224,12 @@ func (s *TO0Server) acceptOwner(ctx context.Context, msg io.Reader) (*to0AcceptO
 	}
 
 	// Verify to0d hash matches to0d
-	to0dHash := sig.To1d.Payload.Val.To0dHash.Algorithm.HashFunc().New()
+	to0dHashFunc, err := hashFuncFor(sig.To1d.Payload.Val.To0dHash.Algorithm)
+	if err != nil {
+		captureErr(ctx, protocol.InvalidMessageErrCode, "")
+		return nil, fmt.Errorf("to0d hash: %w", err)
+	}
+	to0dHash := to0dHashFunc.New()
 	if err := cbor.NewEncoder(to0dHash).Encode(sig.To0d.Val); err != nil {
 		return nil, fmt.Errorf("error hashing to0d structure: %w", err)
 	}
